@@ -50,6 +50,15 @@ def evaluate(req, env, spec, REGISTRY, Raised):
         except StepBudgetExceeded:
             return {'status': 'hang', 'detail': 'more than %d line events' % h.step_budget}
         except Exception as ex:
+            # an exception raised by the harness's own code (e.g. incomplete inputs of a bug-hunting replay) is not
+            # an observation of the code under test
+            tb = ex.__traceback__
+            last = None
+            while tb is not None:
+                last = tb.tb_frame.f_code.co_filename
+                tb = tb.tb_next
+            if last and '/vf/' in last.replace('\\', '/'):
+                return {'status': 'error', 'detail': 'harness-side %s: %s' % (type(ex).__name__, ex)}
             outcome = Raised(ex)
         ok = h.post(env, inp, outcome, p)
         if ok is True or (ok is not False and bool(ok)):
